@@ -4,6 +4,16 @@ import json, sys, os
 V = '/verif'
 CLAIMED = {
 
+ 'C13': ("explicit enumeration of all event sequences (depth-bounded) over the real Transport with virtual clock and fake network + stateless DFS over schedules for racing callers",
+         "Real Transport over the fake network against real servers at two addresses, limits {(1,1),(2,1),(2,2),(0,0)->defaults,(1,3)->clamp,(3,2)}; every sequence of 4 events over {call(a), call(b), long gated call, open stream, tick, advance>KeepAlive, CloseIdleConnections, kill, restart} and three racing callers plus a racing housekeeping tick from three pool states: at every dial and every quiescent point the open connections per address never exceed the effective MaxConnsPerHost and the idle queue (read by reflection) never exceeds the effective MaxIdleConnsPerHost.",
+         "idle count read by field name via reflection (clause skipped if the fields disappear); depth L=4 sequential, d<=1 quick / d<=2 thorough for racing callers", "5 C13"),
+ 'C14': ("explicit enumeration of all event sequences (depth-bounded, also from non-initial states) over the real Transport with virtual clock + stateless DFS for racing callers",
+         "Every sequence of 4 events over {call(a), call(b), ping, Go, tick, advance>KeepAlive, advance>IdleConnTimeout, kill, restart} from the initial state and of 4 (thorough: 6) events after [call, kill] and after [two connections, kill]: a call for address A is only executed by server A, calls fail with ErrDial exactly while the server is down and without the clock advancing, and the number of ErrShutdown failures never exceeds the connections that were pooled when the server died (a dead connection is never handed out again), for every spacing relative to KeepAlive/IdleConnTimeout.",
+         "two addresses, pool limits (1,1),(2,1),(2,2); depth-bounded sequences", "5 C14"),
+ 'C15': ("explicit enumeration of all event sequences (depth-bounded) over the real Transport with virtual clock",
+         "A gated long call and/or an open stream span every sequence of 4 events over {call, tick, advance>KeepAlive, advance>IdleConnTimeout, CloseIdleConnections}: the long call succeeds when its gate opens and the stream still echoes (no busy connection was closed); after KeepAlive+IdleConnTimeout+3 ticks without use no connection is open; after Transport.Close none is open.",
+         "busy-connection safety is judged by its user-visible consequence (the call/stream keeps working); depth L=4", "5 C15"),
+
  'C03': ("crash-point enumeration (cut after / instead of every frame of either direction, reset, local Close, Server.Close) x stateless DFS over schedules (deviation-bounded), all server modes",
          "With a gated call, a plain Go call, a ping and a stream with a blocked reader outstanding, the link is cut after or instead of the k-th frame of either direction for every k of the conversation, reset, closed locally or by Server.Close while the traffic is racing; ServeCodec, listener and poll emulation: at quiescence no caller is blocked, every failed call carries ErrShutdown (or the error of its own failed write), successful ones carry their own reply, a blocked stream reader gets ErrStreamShutdown and a call started afterwards returns ErrShutdown without blocking.",
          "message-level cuts (byte-level cuts through the real framing are covered by the byte-pipe scenario when listed in the evidence); 'bounded time' = needs no further event; bounds d<=1 quick / d<=2 thorough", "5 C03"),
